@@ -461,10 +461,17 @@ package rtpconn
 //@   trusted
 //@   why webclient.go: asks every member of g to push its connections to target
 //@   modifies nothing
+//@ -- C15: a broadcast is offered to every member of the slice it is given: the only way out of broadcast before the end of the slice
+//@ -- is a message that cannot be marshalled (a member whose writer is gone is skipped, it does not end the broadcast)
 //@ func broadcast
-//@   trusted
-//@   why webclient.go: marshals m once and queues it for every *webClient in cs
+//@   safe
+//@   props C15 C12
 //@   modifies nothing
+//@   -- type invariant of the table of clients (assumed, as in group.getClientUnlocked): registered clients are objects
+//@   assume members-are-objects: forall k int :: 0 <= k && k < len(cs) ==> cs[k] == nil || ref(cs[k]) != 0
+//@   invariant loop 1 range: -1 <= rangeindex && rangeindex < len(cs)
+//@   proves only-marshal-error: result == second(callresult("Marshal", 1))
+//@   proves whole-slice: isnil(result) ==> rangeindex >= len(cs) - 1
 //@ func (*webClient).Data
 //@   trusted
 //@   why webclient.go: maps.Clone(c.data)
